@@ -59,7 +59,7 @@ def gen_chain(rng, worm=None, max_stages=3, currents=None):
     kinds = []
     for s in range(n_stages):
         r = rng.random()
-        if worm is True and s == 0:
+        if worm is True and (s == 0 or (s == 1 and rng.random() < 0.5)):
             kinds.append('worm')
         elif r < 0.2:
             kinds.append('fly')
